@@ -90,6 +90,8 @@ namespace
             else if (name == "callbinary")
             {
                 auto str = arg;
+                // operators are registered under their lower-case name
+                std::transform(str.begin(), str.end(), str.begin(), [](char c) { return (char)std::tolower(c); });
                 if (!runtime.sqfop_exists_binary(str))
                 {
                     runtime.__logmsg(err::InvalidAssemblyInstruction(
@@ -122,8 +124,22 @@ namespace
             }
             else if (name == "makearray")
             {
-                auto len = std::stof(arg);
-                code.push_back(std::make_shared<sqf::opcodes::make_array>((size_t)len));
+                // decimal digits only, and an array of n elements needs n instructions in front of it
+                size_t len = 0;
+                bool valid = !arg.empty();
+                for (char c : arg)
+                {
+                    if (c < '0' || c > '9' || len > code.size()) { valid = false; break; }
+                    len = len * 10 + (size_t)(c - '0');
+                }
+                if (!valid || len > code.size())
+                {
+                    runtime.__logmsg(err::InvalidAssemblyInstruction(
+                        runtime.context_active().current_frame().diag_info_from_position(),
+                        full));
+                    return {};
+                }
+                code.push_back(std::make_shared<sqf::opcodes::make_array>(len));
             }
             else if (name == "push")
             {
